@@ -1,0 +1,45 @@
+//go:build verif
+
+package bytecode
+
+// Machine-checked contracts for package bytecode (see /verif/DESIGN.md, C32).
+// This file contains no declarations: it only carries specification comments
+// that the elkvc verification-condition generator reads.
+
+/*@
+// ---- the line table as a per-byte line map -----------------------------------------
+// psum(l, k): number of bytecode bytes covered by the first k entries
+spec rec fn psum(l LineInfoList, k int) int = ite(k <= 0, 0, psum(l, k - 1) + elem(l, k - 1).InstructionCount)
+// every entry exists and covers at least one byte
+spec fn wfLines(l LineInfoList) bool = forall j int :: 0 <= j && j < len(l) ==> elem(l, j) != nil && elem(l, j).InstructionCount >= 1
+
+lemma psumMono(l LineInfoList, a int, b int)
+  props C32
+  requires wfLines(l) && 0 <= a && a <= b && b <= len(l)
+  ensures psum(l, a) <= psum(l, b)
+  induction b from a
+
+lemma psumNonneg(l LineInfoList, a int)
+  props C32
+  requires wfLines(l) && 0 <= a && a <= len(l)
+  ensures psum(l, a) >= 0
+  induction a from 0
+
+// instruction index i is covered by entry k  <==>  psum(k) <= i < psum(k+1)
+func (LineInfoList).GetLineInfo
+  props C32
+  uses psumMono, psumNonneg
+  requires wfLines(l)
+  // the table covers the bytes of one function: their number is a slice length
+  requires psum(l, len(l)) <= 72057594037927936
+  assigns nothing
+  ensures inblock: forall k int :: 0 <= k && k < len(l) && psum(l, k) <= instructionIndex && instructionIndex < psum(l, k + 1) ==> ret == elem(l, k)
+  ensures beyond: instructionIndex >= psum(l, len(l)) ==> ret == nil
+  loop 1
+    invariant currentBytecodeOffset == psum(l, range_idx)
+    invariant forall j int :: 0 <= j && j < range_idx ==> psum(l, j + 1) <= instructionIndex
+    hint psum(l, range_idx + 1) == psum(l, range_idx) + elem(l, range_idx).InstructionCount
+    hint psum(l, range_idx + 1) <= psum(l, len(l))
+    hint later: forall k int :: range_idx < k && k <= len(l) ==> psum(l, range_idx + 1) <= psum(l, k)
+    decreases len(l) - range_idx
+@*/
